@@ -197,3 +197,27 @@ def isinstance_expr(e, clsname, facts):
     if not kinds:
         return z3.BoolVal(False)
     return z3.Or([kind(e) == k for k in kinds])
+
+
+# ------------------------------------------------------------------------------------------------ abstract lists of Val
+VList = z3.DeclareSort("ValList")
+vl_nil = z3.Const("vl_nil", VList)
+vl_app = z3.Function("vl_app", VList, Val, VList)
+vl_len = z3.Function("vl_len", VList, z3.IntSort())
+vl_sum = z3.Function("vl_sum", VList, Val)          # Add(*L)
+vl_mm = z3.Function("vl_mm", z3.IntSort(), VList, Val)  # Min(*L) / Max(*L), first argument: K_MIN / K_MAX
+vl_allany = z3.Function("vl_allany", VList, z3.BoolSort())
+v_applyf = z3.Function("v_applyf", ExprS, VList, Val)   # expr.func(*L)
+
+
+def vl_axioms_for_append(L, x):
+    """instances of the defining equations of the list folds for L' = vl_app(L, x)  (definitions, not assumptions)"""
+    L2 = vl_app(L, x)
+    return [vl_len(L2) == vl_len(L) + 1, vl_len(L) >= 0,
+            vl_allany(L2) == z3.And(vl_allany(L), v_is_any(x)),
+            # ASSUMED (A-LIST): Add/Min/Max of values that are all 0, +-oo or NaN is itself 0, +-oo or NaN
+            z3.Implies(vl_allany(L2), z3.And(v_is_any(vl_sum(L2)), v_is_any(vl_mm(K_MIN, L2)), v_is_any(vl_mm(K_MAX, L2)))),
+            v_kind(vl_sum(L2)) != SYMB if False else z3.BoolVal(True)]
+
+
+VL_NIL_FACTS = [vl_len(vl_nil) == 0, vl_allany(vl_nil)]
